@@ -224,6 +224,17 @@ def signature(pid, v):
     return {"property": pid, "kind": v["kind"], "algo_profile": v["profile"]}
 
 
+def sig_matches(sig, known_sig):
+    """A known finding is identified by the predicate that fails and the operation it fails on."""
+    for a, b in known_sig.items():
+        if a == "bad_contains":
+            if b not in str(sig.get("bad", "")):
+                return False
+        elif sig.get(a) != b:
+            return False
+    return True
+
+
 def check(pid, tier):
     t0 = time.time()
     core.build_harness()
@@ -257,7 +268,7 @@ def finish(pid, tier, t0, results, violations, samples, rule=None, assumptions=N
     new, seen_known = [], {}
     for v in violations:
         sig = signature(pid, v)
-        hit = next((k for k in known if all(sig.get(a) == b for a, b in k["signature"].items())), None)
+        hit = next((k for k in known if sig_matches(sig, k["signature"])), None)
         if hit:
             seen_known[hit["id"]] = hit
         else:
